@@ -23,8 +23,14 @@
        quorums are counted inside V (so non-voting members are included).
    D3  Responses that carry no information are not sent: vote rejections, Replicate
        rejections, HeartbeatResp, NoOP.  The self-vote of campaign() and the
-       leader's own match (remotes[self].tryUpdate in appendEntries) are put in the
-       soup as ordinary Vote / Ack messages, so every quorum is a set of messages.
+       leader's own match are put in the soup as ordinary Vote / Ack messages, so every
+       quorum is a set of messages.  The leader's own Ack is the separate step
+       [LSelfAck i] ("my entries are on my disk"): the code sets remotes[self].match in
+       appendEntries, before its own write, but tryCommit can only use it in a later
+       step of the same worker, after SaveRaftState (C04: leader_self_ack_after_persist);
+       a single-node quorum commits in appendEntries itself, which is
+       LPropose;LSelfAck;LAdvanceCommit here and is not acted upon before the write
+       (C04: apply_not_before_persist).
    D4  [LTimeout] is enabled in every role (the code never campaigns as leader;
        LStepDown;LTimeout reaches the same state).  The guard "no campaign while
        committed > applied" concerns membership change only (stage 3).
@@ -48,9 +54,19 @@
        conflict index <= committed in tryAppend; commitTo beyond lastIndex in
        handleHeartbeatMessage.  Both are proved unreachable (Props/L2.v:
        append_never_conflicts_with_committed, heartbeat_commit_in_range).
-   D8  Restart keeps (term, voted_for, log) and any commit value <= the old one
-       (dragonboat persists State{Term,Vote,Commit} with the entries; C04 proves
-       persist-before-send); role := Follower.
+   D8  Restart i c m keeps (term, voted_for), any commit value c <= the old one, and
+       the first m entries of the log, for any m that covers every acknowledgement the
+       node ever sent (Ack messages of the soup, its own LSelfAck included): dragonboat
+       sends Replicate messages BEFORE the leader's own write (thesis 10.2.1), so a crash
+       can lose a suffix of the leader's log that followers already hold; everything
+       else is persisted before it is sent (C04: persist_before_send, crash_cut_safe).
+       m >= length log is the plain restart.  role := Follower.
+       The guard hcommit <= m reads ghost state: it excludes crash cuts that lose
+       entries at or below a commit value the node once held in memory.  Such a cut can
+       only lose a commit value together with the Update that carried it (entries and
+       State are one atomic write, C10), i.e. the node is then in the state it had
+       before that step, which made no message (a follower's commit value is not sent
+       anywhere; a leader advances commit only over entries already on its disk).
    D9  PreVote, ReadIndex, leader transfer (= LTimeout at any time), quiesce, rate
        limiting, flow control change none of (term, vote, role, log, commit) other
        than through the steps above and are not modelled.
@@ -106,7 +122,8 @@ Inductive label :=
 | LAdvanceCommit (i : id) (k : nat)
 | LSendHB (i j : id) (c : nat)
 | LHandleHB (j : id) (t : nat) (ldr : id) (c : nat)
-| LRestart (i : id) (c : nat).
+| LSelfAck (i : id)
+| LRestart (i : id) (c m : nat).
 
 (* ---------------------------------------------------------------- *)
 (* logs *)
@@ -153,6 +170,13 @@ Definition is_ack (t k : nat) (v : id) (m : msg) : bool :=
   | Ack t' v' _ mi => (t' =? t) && (v' =? v) && (k <=? mi)
   | _ => false
   end.
+
+(* every acknowledgement node i ever sent is for an index <= m *)
+Definition acks_le (ms : list msg) (i : id) (m : nat) : bool :=
+  forallb (fun x => match x with
+                    | Ack _ v _ k => negb (v =? i) || (k <=? m)
+                    | _ => true
+                    end) ms.
 
 Definition upd (f : id -> node) (i : id) (x : node) : id -> node :=
   fun j => if j =? i then x else f j.
@@ -214,7 +238,7 @@ Section Net.
       quorum <= vote_count (msgs n) t i ->
       step n (LBecomeLeader i)
         (mkNet (upd (nodes n) i (mkNode t (voted x) Leader l' (commit x) (hcommit x)))
-               (Ack t i i (length l') :: msgs n)
+               (msgs n)
                (updg (lead n) t (Some i)) (updg (llog0 n) t l') (updg (llog n) t l'))
   | SAPropose n i p :
       let x := nodes n i in
@@ -223,7 +247,7 @@ Section Net.
       role x = Leader ->
       step n (LPropose i p)
         (mkNet (upd (nodes n) i (mkNode t (voted x) Leader l' (commit x) (hcommit x)))
-               (Ack t i i (length l') :: msgs n)
+               (msgs n)
                (lead n) (llog0 n) (updg (llog n) t l'))
   | SASendAE n i prev len lc :
       let x := nodes n i in
@@ -282,11 +306,20 @@ Section Net.
       step n (LHandleHB j t ldr c)
         (mkNet (upd (nodes n) j (mkNode (term x) (voted x) Follower (log x) c' (Nat.max (hcommit x) c')))
                (msgs n) (lead n) (llog0 n) (llog n))
-  | SARestart n i c :
+  | SASelfAck n i :
+      (* the leader's own match: its entries are on its disk *)
+      let x := nodes n i in
+      role x = Leader ->
+      step n (LSelfAck i)
+        (mkNet (nodes n) (Ack (term x) i i (length (log x)) :: msgs n)
+               (lead n) (llog0 n) (llog n))
+  | SARestart n i c m :
       let x := nodes n i in
       c <= commit x ->
-      step n (LRestart i c)
-        (mkNet (upd (nodes n) i (mkNode (term x) (voted x) Follower (log x) c (hcommit x)))
+      hcommit x <= m ->                                     (* ghost guard, see D8 *)
+      acks_le (msgs n) i m = true ->
+      step n (LRestart i c m)
+        (mkNet (upd (nodes n) i (mkNode (term x) (voted x) Follower (firstn m (log x)) c (hcommit x)))
                (msgs n) (lead n) (llog0 n) (llog n)).
 
   Inductive steps : net -> list label -> net -> Prop :=
@@ -363,7 +396,7 @@ Section Net.
       let l' := log x ++ [noop t] in
       if role_eqb (role x) Candidate && (quorum <=? vote_count (msgs n) t i) then
         Some (mkNet (upd (nodes n) i (mkNode t (voted x) Leader l' (commit x) (hcommit x)))
-                    (Ack t i i (length l') :: msgs n)
+                    (msgs n)
                     (updg (lead n) t (Some i)) (updg (llog0 n) t l') (updg (llog n) t l'))
       else None
     | LPropose i p =>
@@ -372,7 +405,7 @@ Section Net.
       let l' := log x ++ [mkE t p] in
       if role_eqb (role x) Leader then
         Some (mkNet (upd (nodes n) i (mkNode t (voted x) Leader l' (commit x) (hcommit x)))
-                    (Ack t i i (length l') :: msgs n)
+                    (msgs n)
                     (lead n) (llog0 n) (updg (llog n) t l'))
       else None
     | LSendAE i prev len lc =>
@@ -425,10 +458,17 @@ Section Net.
                          (mkNode (term x) (voted x) Follower (log x) c' (Nat.max (hcommit x) c')))
                     (msgs n) (lead n) (llog0 n) (llog n))
       else None
-    | LRestart i c =>
+    | LSelfAck i =>
       let x := nodes n i in
-      if c <=? commit x then
-        Some (mkNet (upd (nodes n) i (mkNode (term x) (voted x) Follower (log x) c (hcommit x)))
+      if role_eqb (role x) Leader then
+        Some (mkNet (nodes n) (Ack (term x) i i (length (log x)) :: msgs n)
+                    (lead n) (llog0 n) (llog n))
+      else None
+    | LRestart i c m =>
+      let x := nodes n i in
+      if (c <=? commit x) && (hcommit x <=? m) && acks_le (msgs n) i m then
+        Some (mkNet (upd (nodes n) i
+                         (mkNode (term x) (voted x) Follower (firstn m (log x)) c (hcommit x)))
                     (msgs n) (lead n) (llog0 n) (llog n))
       else None
     end.
